@@ -282,6 +282,146 @@ def WireLayout.bytes (L : WireLayout) (sz : WireTy → Nat) (publish pairs : Nat
 def WireLayout.covers (a b : List WireTy) : Bool :=
   [WireTy.int, WireTy.char, WireTy.global].all fun t => a.count t ≤ b.count t
 
+
+/-! ### round four: parts of the source read as data (Gen/C13.lean) and the definitions they are plugged into -/
+
+inductive Cmp where
+  | lt | le | gt | ge | eq | ne
+deriving DecidableEq, Repr
+
+/-- comparison of two keys `(global, own attribute)` in the lexicographic order of `std::pair` -/
+def Cmp.evalKey (c : Cmp) (a b : RemEntry) : Bool :=
+  let lt := a.g < b.g || (a.g == b.g && a.own < b.own)
+  let eq := a.g == b.g && a.own == b.own
+  match c with
+  | .lt => lt
+  | .le => lt || eq
+  | .gt => !(lt || eq)
+  | .ge => !lt
+  | .eq => eq
+  | .ne => !eq
+
+def Cmp.evalNat (c : Cmp) (a b : Nat) : Bool :=
+  match c with
+  | .lt => a < b
+  | .le => a ≤ b
+  | .gt => b < a
+  | .ge => b ≤ a
+  | .eq => a == b
+  | .ne => a != b
+
+/-- the branch conditions of `insertIntoRemoteIndexList`, in source order -/
+structure InsertConds where
+  advanceWhile : Cmp   -- `while(notAtEnd && key(cursor) ? newKey) ++cursor`
+  insertIf : Cmp       -- `if(atEnd || key(cursor) ? newKey) { insert; return; }`
+  scanWhile : Cmp      -- `for(tmp = cursor; notAtEnd && key(tmp) ? newKey; ++tmp)`
+  foundIf : Cmp        -- `if(remoteAttribute(tmp) ? attribute) { found = true; break; }`
+  insertUnlessFound : Bool  -- `if(!found) insert` (true) / `if(found) insert` (false)
+deriving DecidableEq, Repr
+
+/-- the control-flow skeleton of `insertIntoRemoteIndexList` on one list with the conditions as parameters; the
+translator checks the skeleton and regenerates the conditions (`Gen.insertConds`) -/
+def insertEntryG (c : InsertConds) (n : RemEntry) : List RemEntry → List RemEntry
+  | [] => [n]
+  | e :: es =>
+    if c.advanceWhile.evalKey e n then e :: insertEntryG c n es
+    else if c.insertIf.evalKey e n then n :: e :: es
+    else if (((e :: es).takeWhile (fun x => c.scanWhile.evalKey x n)).any (fun x => c.foundIf.evalNat x.rem n.rem))
+        == c.insertUnlessFound then e :: es
+    else n :: e :: es
+
+/-- the phases of `sync(numberer, useFixedOrder)` the translator recognises -/
+inductive Phase where
+  | markPending | sizes | beginResize | pack | recv | waitall | clearIterators | endResize | repair
+  | clearOld | clearAdded | clearGlobal | clearInfo | clearPending | seqSource | seqDest
+deriving DecidableEq, Repr
+
+/-- one statement of `sync`: the phase, the number of the innermost loop around it (0 = none), inside an if/else body -/
+structure SyncEv where
+  ph : Phase
+  loop : Nat
+  guarded : Bool
+deriving DecidableEq, Repr
+
+/-- `for(i = start; i ? bound; ++i)`: start, comparison, "the bound is the number of old neighbours", "the step is +1" -/
+structure LoopHdr where
+  start : Nat
+  cmp : Cmp
+  boundIsNeighbours : Bool
+  stepInc : Bool
+deriving DecidableEq, Repr
+
+/-- the loop visits every old neighbour exactly once -/
+def LoopHdr.full (h : LoopHdr) : Bool := h.start == 0 && h.cmp == .lt && h.boundIsNeighbours && h.stepInc
+
+namespace SyncOrder
+def count (evs : List SyncEv) (p : Phase) : Nat := evs.countP (fun e => e.ph == p)
+def pos (evs : List SyncEv) (p : Phase) : Nat := evs.findIdx (fun e => e.ph == p)
+def loopOf (evs : List SyncEv) (p : Phase) : Nat := ((evs.find? (fun e => e.ph == p)).map (·.loop)).getD 0
+/-- the phase is executed exactly once per sync, unconditionally, outside every loop -/
+def once (evs : List SyncEv) (p : Phase) : Bool :=
+  count evs p == 1 && evs.all (fun e => e.ph != p || (e.loop == 0 && !e.guarded))
+/-- the phase occurs exactly once in the text, unconditionally, inside a loop -/
+def perNeighbour (evs : List SyncEv) (p : Phase) : Bool :=
+  count evs p == 1 && evs.all (fun e => e.ph != p || (e.loop != 0 && !e.guarded))
+def before (evs : List SyncEv) (a b : Phase) : Bool := pos evs a < pos evs b
+end SyncOrder
+
+open SyncOrder in
+/-- what the protocol model assumes about the statement order of `sync`:
+* `sizes` once and before the packing loop (the buffers are sized for the messages packed);
+* the packing loop and the receiving loop are two different loops, the first complete before the second starts
+  (`inbox` is computed from the pre-sync state of *every* process; no process waits for a message before all of its
+  own are on their way);
+* everything received is added between `beginResize` and `endResize` (one resize = one increment of the sequence
+  number, `finish`), `repairLocalIndexPointers` runs after the index set is sorted again and before the keys it
+  needs (`globalMap_`) are dropped;
+* all per-sync members are emptied after the last receive (a second `sync` on the same object starts like the
+  first: `sync ∘ sync`, `runSteps`);
+* both sequence numbers are set from the index set after `endResize` (`isSynced`), the wait for the sends comes after
+  the receives (synchronous sends complete only when matched). -/
+def syncPhasesOK (evs : List SyncEv) : Bool :=
+  once evs .sizes && once evs .beginResize && once evs .endResize && once evs .repair && once evs .waitall
+  && perNeighbour evs .pack && perNeighbour evs .recv && perNeighbour evs .markPending
+  && loopOf evs .pack != loopOf evs .recv
+  && before evs .sizes .pack && before evs .pack .recv && before evs .beginResize .recv && before evs .markPending .recv
+  && before evs .recv .waitall && before evs .recv .endResize && before evs .endResize .repair
+  && before evs .repair .clearGlobal
+  && once evs .clearIterators && once evs .clearOld && once evs .clearAdded && once evs .clearGlobal && once evs .clearInfo
+  && before evs .recv .clearIterators && before evs .recv .clearOld && before evs .recv .clearAdded
+  && before evs .recv .clearInfo
+  && once evs .seqSource && once evs .seqDest && before evs .endResize .seqSource && before evs .endResize .seqDest
+  && count evs .clearPending == 0
+
+/-- an amount added to a counter of `calculateMessageSizes`: a literal or the number of holders of the index -/
+inductive Amount where
+  | const (k : Nat) | holders
+deriving DecidableEq, Repr
+
+def Amount.eval (a : Amount) (holders : Nat) : Nat :=
+  match a with
+  | .const k => k
+  | .holders => holders
+
+/-- what is added to `infoSend_[h].publish` and `infoSend_[h].pairs` for every holder `h` of an index -/
+structure CountIncr where
+  publish : Amount
+  pairs : Amount
+deriving DecidableEq, Repr
+
+/-- the counting loop of `calculateMessageSizes`: for every index of the set, in order, for every holder `h` of the
+index: `infoSend_[h].publish += inc.publish`, `infoSend_[h].pairs += inc.pairs` (the map `infoSend_` as a function,
+absent = (0, 0) as `operator[]` creates it) -/
+def calcInfo (inc : CountIncr) (st : RankState) : Nat → Nat × Nat :=
+  st.idx.foldl (fun info e =>
+    let hs := holders st.remote e.g
+    hs.foldl (fun info h => fun q =>
+      if q = h.1 then ((info q).1 + inc.publish.eval hs.length, (info q).2 + inc.pairs.eval hs.length) else info q) info)
+    (fun _ => (0, 0))
+
+/-- number of published indices and of pairs in a message -/
+def msgCounts (items : List Item) : Nat × Nat := (items.length, (items.map (fun it => it.pairs.length)).sum)
+
 /-- `addCopy` on rank `p` of a world -/
 def addCopyAt (w : World) (p : Nat) (g : Int) (a : Nat) (loc : Nat) (known : List (Nat × Nat)) : World :=
   match w[p]? with
